@@ -387,6 +387,8 @@ class Norm:
                 _tag, var, it, loopid = b
                 for s, f, cs in states:
                     for e2, f2, cs2 in self.gens(it, s):
+                        if e2[0] == "pair":
+                            e2 = e2[1]  # iterating a dict yields its keys
                         s2 = dict(s)
                         s2[var] = e2
                         extra = [("cut-short",)] if loopid in self.cut_loops else []
@@ -544,6 +546,21 @@ class Norm:
             for p in parts:
                 if p not in seen:
                     seen.append(p)
+            if tag == "and":
+                # a non-empty collection built from a source implies that the source is not empty
+                implied = set()
+                for p in seen:
+                    if p[0] == "truthy" and p[1][0] == "bag" and p[1][1]:
+                        per_gen = []
+                        for g in p[1][1]:
+                            srcs = set()
+                            for _v, src in g[2]:
+                                srcs.add(("truthy", src))
+                                if src[0] == "keys":
+                                    srcs.add(("truthy", src[1]))
+                            per_gen.append(srcs)
+                        implied |= set.intersection(*per_gen)
+                seen = [p for p in seen if p not in implied]
             if tag == "and" and any(c_not(p) in seen for p in seen):
                 return FALSE
             if tag == "or" and any(c_not(p) in seen for p in seen):
